@@ -28,6 +28,8 @@ import os, sys, json, time, subprocess, shutil, tempfile
 from . import env
 
 DEPS = os.path.join(env.VERIF_ROOT, ".deps")
+if not os.path.isdir(DEPS) and os.path.isdir("/verif/.deps"):
+    DEPS = "/verif/.deps"       # a snapshot of the committed files (vp run) has no .deps of its own
 
 
 def available():
